@@ -144,6 +144,59 @@ with wf_arms (a : arms) : bool :=
   | AElif _ _ _ body rest => wf_block body && wf_arms rest
   end.
 
+(** What the parser needs in addition (the domain of C14_parse_full):
+    indentation is blanks; command lines, conditions and word lists are
+    non-empty, trimmed, on one line; a command line does not begin with a
+    block keyword; conditions and word lists hold no `;`; loop variables are
+    identifiers; every body has at least one line. *)
+Definition is_blank (c : char) : bool := (c =? 32) || (c =? 9).
+Definition wfp_ind (ind : str) : bool := forallb is_blank ind.
+Definition wfp_text (t : str) : bool :=
+  negb (is_empty t) && forallb (fun c => negb (c =? 10) && negb (c =? 13)) t && str_eqb (trim t) t.
+Definition no_semi (t : str) : bool := forallb (fun c => negb (c =? 59)) t.
+Definition has_prefix (p t : str) : bool := match strip_prefix p t with Some _ => true | None => false end.
+Definition starts_kw (line : str) : bool :=
+  has_prefix s_if line || has_prefix s_for line || has_prefix s_elseif line || has_prefix s_while line
+  || str_eqb line s_else || str_eqb line s_fi || str_eqb line s_done.
+Definition wfp_var (v : str) : bool :=
+  match v with
+  | [] => false
+  | c :: r => (is_alpha c || (c =? 95)) && forallb is_alnum_us r
+  end.
+Definition nonempty_block (b : block) : bool := match b with BNil => false | BCons _ _ => true end.
+
+Fixpoint wfp_block (b : block) : bool :=
+  match b with
+  | BNil => true
+  | BCons s r => wfp_stmt s && wfp_block r
+  end
+with wfp_stmt (s : stmt) : bool :=
+  match s with
+  | SCmd ind line => wfp_ind ind && wfp_text line && wf_line line && negb (starts_kw line)
+  | SBlank ws => wfp_ind ws
+  | SBreak ind | SCont ind => wfp_ind ind
+  | SIf ind _ cond body rest =>
+      wfp_ind ind && wfp_text cond && no_semi cond && nonempty_block body && wfp_block body && wfp_arms rest
+  | SFor ind _ var words body =>
+      wfp_ind ind && wfp_var var && wfp_text words && no_semi words && nonempty_block body && wfp_block body
+  | SWhile ind _ cond body =>
+      wfp_ind ind && wfp_text cond && no_semi cond && nonempty_block body && wfp_block body
+  end
+with wfp_arms (a : arms) : bool :=
+  match a with
+  | ANone ind => wfp_ind ind
+  | AElse ind body ind_fi => wfp_ind ind && wfp_ind ind_fi && nonempty_block body && wfp_block body
+  | AElif ind _ cond body rest =>
+      wfp_ind ind && wfp_text cond && no_semi cond && nonempty_block body && wfp_block body && wfp_arms rest
+  end.
+
+(** [parse_ok b]: the generated grammar parses the text of [b] completely, to
+    the ideal tree (EOI pairs, which no consumer reads, left out). *)
+Definition parse_ok (b : block) : Prop :=
+  exists p kids,
+    parse_from l_grammar L_EXP (render_block b) = POk p [] kids /\
+    map (fun k => strip_eoi L_EOI (annotate (render_block b) k)) kids = [tree_of_script b].
+
 (** Nesting measure: the depth bound the transcribed interpreter needs. *)
 Fixpoint depth_block (b : block) : nat :=
   match b with
@@ -180,15 +233,52 @@ Variable for_words : W -> str -> W * list str.
 Variable set_var : W -> str -> str -> W.
 Variable n : nat.
 
+(** sequencing: a statement that asks to leave the innermost loop ends the block *)
 Definition then_ (o : outcome W) (k : W -> outcome W) : outcome W :=
   match o with
   | Done w1 crs c b =>
-      if c || b then Done w1 crs c b
+      if c then Done w1 crs true false
+      else if b then Done w1 crs false true
       else match k w1 with
            | Done w2 crs2 c2 b2 => Done w2 (crs ++ crs2) c2 b2
            | x => x
            end
   | x => x
+  end.
+
+(** `for`: one run of the body per word, in order; break ends the loop, continue only the iteration *)
+Fixpoint sem_each (body : W -> outcome W) (var : str) (vs : list str) (w : W) : outcome W :=
+  match vs with
+  | [] => Done w [] false false
+  | v :: vs' =>
+      match body (set_var w var v) with
+      | Done w2 crs _ b =>
+          if b then Done w2 crs false false
+          else match sem_each body var vs' w2 with
+               | Done w3 crs3 c3 b3 => Done w3 (crs ++ crs3) c3 b3
+               | x => x
+               end
+      | x => x
+      end
+  end.
+
+(** `while`: the condition is run before every iteration *)
+Fixpoint sem_iter (cond : str) (body : W -> outcome W) (k : nat) (w : W) : outcome W :=
+  match k with
+  | O => OutOfFuel
+  | S k' =>
+      let '(w1, crs) := run_line w cond in
+      if last_is_zero crs then
+        match body w1 with
+        | Done w2 crs2 _ b =>
+            if b then Done w2 crs2 false false
+            else match sem_iter cond body k' w2 with
+                 | Done w3 crs3 c3 b3 => Done w3 (crs2 ++ crs3) c3 b3
+                 | x => x
+                 end
+        | x => x
+        end
+      else Done w1 [] false false
   end.
 
 Fixpoint sem_block (b : block) (in_loop : bool) (w : W) {struct b} : outcome W :=
@@ -207,38 +297,8 @@ with sem_stmt (s : stmt) (in_loop : bool) (w : W) {struct s} : outcome W :=
       if last_is_zero crs then sem_block body in_loop w1 else sem_arms rest in_loop w1
   | SFor _ _ var words body =>
       let '(w1, vs) := for_words w words in
-      (fix each (vs : list str) (w : W) : outcome W :=
-         match vs with
-         | [] => Done w [] false false
-         | v :: vs' =>
-             match sem_block body true (set_var w var v) with
-             | Done w2 crs _ b =>
-                 if b then Done w2 crs false false
-                 else match each vs' w2 with
-                      | Done w3 crs3 c3 b3 => Done w3 (crs ++ crs3) c3 b3
-                      | x => x
-                      end
-             | x => x
-             end
-         end) vs w1
-  | SWhile _ _ cond body =>
-      (fix iter (k : nat) (w : W) : outcome W :=
-         match k with
-         | O => OutOfFuel
-         | S k' =>
-             let '(w1, crs) := run_line w cond in
-             if last_is_zero crs then
-               match sem_block body true w1 with
-               | Done w2 crs2 _ b =>
-                   if b then Done w2 crs2 false false
-                   else match iter k' w2 with
-                        | Done w3 crs3 c3 b3 => Done w3 (crs2 ++ crs3) c3 b3
-                        | x => x
-                        end
-               | x => x
-               end
-             else Done w1 [] false false
-         end) n w
+      sem_each (sem_block body true) var vs w1
+  | SWhile _ _ cond body => sem_iter cond (sem_block body true) n w
   end
 with sem_arms (a : arms) (in_loop : bool) (w : W) {struct a} : outcome W :=
   match a with
